@@ -1,21 +1,25 @@
-"""Registry of harness units (one test binary each) and of the tests that decide each property."""
+"""Registry of harness units (one test binary each) and of the tests that decide each property.
 
-UNITS = {
-    "ip": dict(pkg="./pkg/ip", tags="default_build"),
-}
+Each file bin/props.d/*.py defines UNITS (name -> dict(pkg, tags, race?, unshare?, shrinktime?, steps?, vmem_kb?))
+and PROPS (id -> dict(level, technique, rule, assumptions, level_text, level_note, tests=[dict(unit, test, quick, thorough,
+shards?, shards_quick?, shards_thorough?, timeout_quick?, timeout_thorough?, env?)])).  They are merged here.
+"""
+import glob, os
 
-PROPS = {
-    "C14": dict(
-        level="exploration",
-        technique="property-based testing (rapid): differential against bit-level / big-integer reference models",
-        rule="cases drawn by rapid generators; non-trivial = prefix length not byte aligned, or subnet with <= 2 host bits, or network with a leading zero byte; distinct = distinct scenario hash",
-        assumptions=[],
-        level_text="generated addresses/prefixes/names checked against independent bit-level and big-integer reference models; exploration, not proof",
-        level_note="trusts Go's net, math/big and crypto/sha1 as the reference; u32 semantics modelled as value/mask at byte offset into the IP header",
-        tests=[
-            dict(unit="ip", test="TestVerifC14Gateway", quick=40000, thorough=4000000),
-        ],
-    ),
-}
+UNITS, PROPS = {}, {}
+for _f in sorted(glob.glob(os.path.join(os.path.dirname(os.path.abspath(__file__)), "props.d", "*.py"))):
+    _g = {}
+    with open(_f) as _fh:
+        exec(compile(_fh.read(), _f, "exec"), _g)
+    for _k, _v in _g.get("UNITS", {}).items():
+        if _k in UNITS and UNITS[_k] != _v:
+            raise SystemExit("unit %s defined twice with different settings (%s)" % (_k, _f))
+        UNITS[_k] = _v
+    for _k, _v in _g.get("PROPS", {}).items():
+        if _k in PROPS:
+            PROPS[_k]["tests"] += _v["tests"]
+        else:
+            PROPS[_k] = _v
 
-NOT_APPLICABLE = {k: "check not built yet (work in progress; see DESIGN.md)" for k in ["C01", "C02", "C03", "C04", "C05", "C06", "C07", "C08", "C09", "C10", "C11", "C12", "C13", "C14", "C15", "C16", "C17", "C18", "C19", "C20"] if k not in PROPS}
+NOT_APPLICABLE = {k: "check not built yet (work in progress; see DESIGN.md)"
+                  for k in ["C%02d" % i for i in range(1, 21)] if k not in PROPS}
